@@ -168,6 +168,73 @@ fn exhaustive_vuln(id: &'static str, t: &Tables) -> ScnResult {
     r
 }
 
+/// Every unordered pair of patterns (all categories) x both iteration orders x two shapes: a small
+/// complete sub-space that makes "two patterns interfere in the renderer" a deterministic find.
+fn exhaustive_pairs(id: &'static str, t: &Tables) -> ScnResult {
+    let mut r = ScnResult::default();
+    let all: Vec<Pat> = t.sections.iter().map(|(p, _)| *p).collect();
+    for i in 0..all.len() {
+        for k in (i + 1)..all.len() {
+            for order in 0..2 {
+                for shape in 0..2 {
+                    let (a, b) = (all[i], all[k]);
+                    let entries = if shape == 0 {
+                        vec![(a, "a.sol".to_string(), vec![1]), (b, "a.sol".to_string(), vec![5])]
+                    } else {
+                        vec![
+                            (a, "b.sol".to_string(), vec![2, 3]),
+                            (b, "a.sol".to_string(), vec![1]),
+                            (a, "a.sol".to_string(), vec![1]),
+                            (b, "x:1.sol".to_string(), vec![0, 7]),
+                        ]
+                    };
+                    let mut pol = OrderPolicy::default();
+                    let (ka, kb) = (a.debug_key(), b.debug_key());
+                    pol.ranks.insert(ka, if order == 0 { 0 } else { 1 });
+                    pol.ranks.insert(kb, if order == 0 { 1 } else { 0 });
+                    let s = Synth {
+                        entries,
+                        iteration: pol,
+                    };
+                    let (fs, rend) = judge_synth(id, &s, t);
+                    r.evaluations += 1;
+                    r.steps += rend.journal.len() as u64 + 1;
+                    r.count("exhaustive_pattern_pair_cases", 1);
+                    r.nontrivial.push(hash_str(33, &s.to_json().to_string()));
+                    for f in fs {
+                        if r.violations.len() < 6 {
+                            r.violations.push(Violation {
+                                clause: f.clause,
+                                detail: f.detail,
+                                replay: json!({"kind": "synthetic", "synth": s.to_json()}),
+                            });
+                        }
+                    }
+                }
+            }
+        }
+    }
+    r
+}
+
+fn merge(mut a: ScnResult, b: ScnResult) -> ScnResult {
+    a.evaluations += b.evaluations;
+    a.steps += b.steps;
+    a.nontrivial.extend(b.nontrivial);
+    a.interleavings.extend(b.interleavings);
+    for (k, v) in b.extra {
+        *a.extra.entry(k).or_insert(0) += v;
+    }
+    for (k, v) in b.probes {
+        *a.probes.entry(k).or_insert(0) += v;
+    }
+    a.violations.extend(b.violations);
+    if a.harness_error.is_none() {
+        a.harness_error = b.harness_error;
+    }
+    a
+}
+
 fn permute(v: &mut Vec<usize>, k: usize, out: &mut Vec<Vec<usize>>) {
     if k == v.len() {
         out.push(v.clone());
@@ -283,17 +350,18 @@ impl Property for ReportProp {
         r
     }
     fn prelude(&self, _ctx: &Ctx, _screen: &mut Screen) -> Option<ScnResult> {
+        let t = Tables::build();
         if self.id == "C12" {
-            Some(exhaustive_vuln(self.id, &Tables::build()))
+            Some(merge(exhaustive_vuln(self.id, &t), exhaustive_pairs(self.id, &t)))
         } else {
-            None
+            Some(exhaustive_pairs(self.id, &t))
         }
     }
     fn exhaustive_note(&self) -> Option<String> {
         if self.id == "C12" {
-            Some("only the sub-space '16 subsets of the four vulnerability patterns x 24 iteration orders x 2 multiplicity shapes' (768 cases) is enumerated completely; everything else is seeded sampling".into())
+            Some("two sub-spaces are enumerated completely: (1) 16 subsets of the four vulnerability patterns x 24 iteration orders x 2 multiplicity shapes (768 cases); (2) every unordered pair of the 30 patterns x both iteration orders x 2 shapes (1740 cases). Everything else is seeded sampling".into())
         } else {
-            None
+            Some("one sub-space is enumerated completely: every unordered pair of the 30 patterns x both iteration orders x 2 shapes (1740 cases). Everything else is seeded sampling".into())
         }
     }
     fn replay(&self, ctx: &Ctx, scn: &Value) -> Result<Option<Violation>, String> {
